@@ -1,0 +1,19 @@
+//go:build verif
+
+// Contracts for package core (model), read by /verif/govc. Comment-only unless
+// a lemma needs a ghost client procedure; never compiled without the verif tag.
+package core
+
+//@ func binarySearch
+//@   requires sorted: forall i, j int :: 0 <= i && i < j && j < len(arr) ==> arr[i].v.Seq < arr[j].v.Seq
+//@   requires nonnil: forall i int :: 0 <= i && i < len(arr) ==> arr[i] != nil
+//@   ensures  none:   result == nil ==> forall i int :: 0 <= i && i < len(arr) ==> arr[i].v.Seq >= seq
+//@   ensures  last:   result != nil ==> exists k int :: 0 <= k && k < len(arr) && result == arr[k] &&
+//@                        arr[k].v.Seq < seq && (k == len(arr)-1 || arr[k+1].v.Seq >= seq)
+//@ loop binarySearch#1
+//@   invariant window: backing(arr) == backing(old(arr)) && off(old(arr)) <= off(arr) &&
+//@                     off(arr)+len(arr) <= off(old(arr))+len(old(arr)) && off(arr)+cap(arr) <= off(old(arr))+cap(old(arr))
+//@   invariant left:   forall i int :: 0 <= i && i < off(arr)-off(old(arr)) ==> old(arr)[i].v.Seq < seq
+//@   invariant right:  forall i int :: off(arr)+len(arr)-off(old(arr)) <= i && i < len(old(arr)) ==> old(arr)[i].v.Seq >= seq
+//@   invariant head:   off(arr) > off(old(arr)) ==> len(arr) > 0 && arr[0].v.Seq < seq
+//@   decreases len(arr)
